@@ -253,7 +253,7 @@ CONSTANTS
     Tokens,         \* rule tokens used in lists (valid and invalid ones; "Nil" is added)
     MaxLen,         \* bound on the length of a loaded list
     Mutant          \* "none", or the name of a deliberately broken variant (vacuity self-test): rawBuild, staleClear,
-                    \* wrongCache, neverUnchanged, coarseReuse, coarseUnchanged, naiveSampleCount, keepBucketCount
+                    \* wrongCache, neverUnchanged, coarseReuse, coarseUnchanged, naiveSampleCount, keepBucketCount, unstableGroup
 
 VARIABLES
     d,          \* module descriptor (fixed by Init)
@@ -282,7 +282,15 @@ Put(f, r, v) == [x \in DOMAIN f \cup {r} |-> IF x = r THEN v ELSE f[x]]
 
 \* whole-set path: the list is grouped by the resource each rule names (nil elements under "-")
 Keys(list)  == {ResOf(list[i]) : i \in DOMAIN list}
-Group(list) == [r \in Keys(list) |-> Restrict(list, r)]
+\* The grouping must be STABLE: the rules of a resource keep the order they have in the loaded list (the statement's "in
+\* order": the getters list them so, and the first rule in order that objects is the one a refusal names).  Mutant
+\* "unstableGroup": rules that share a resource come out in another order (e.g. grouping by an unstable sort).
+\* NOTE on bounds: the model-checked instances hold at most 2..3 elements per list; the order clause is the same sequence
+\* equality for any length, and LARGE lists (13..40 rules over 2..5 resources, where e.g. a sort switches algorithm) are
+\* judged at trace level with the same operators (ValidOf / WantAfter / SameRules / ReqWalk: checks/C13.py family (h)).
+RECURSIVE Reverse(_)
+Reverse(q) == IF q = << >> THEN q ELSE Append(Reverse(Tail(q)), Head(q))
+Group(list) == [r \in Keys(list) |-> IF Mutant = "unstableGroup" THEN Reverse(Restrict(list, r)) ELSE Restrict(list, r)]
 \* Controller reuse (buildResourceTrafficShapingController / BuildResourceCircuitBreaker): a rule of the new list that
 \* EQUALS the rule an old controller of the resource is bound to keeps that controller - and with it the OLD rule
 \* object; every other rule gets a new controller bound to itself.  Rule equality must be the full field tuple, i.e.
